@@ -30,6 +30,9 @@ TRUSTED = [
     "correspondence ops rd.add / rd.rsub on (delta, operand) pairs (date, naive, aware operands; in- and out-of-range fields)",
     "Generated/RDKernels.lean (Gen.fix) re-translated on every run; `Normalised` (its post-condition, theorem C16.fix_bounds) "
     "is the hypothesis under which the piecewise month carry equals the total-month formula",
+    "history of one object: Model/RDHistory.lean (`run`: a use leaves the record alone) + theorems C16.use_after_set_eq_fresh / "
+    "same_mutations_same_answer; that no method writes state outside __init__/_fix/_set_months/weeks.setter is read off the source on "
+    "every run (rdlib.write_audit -> correspondence mismatch rd.write_audit); the `weeks` setter is a hand model (rd.setweeks / rd.hist)",
     "Spec/RelativeDelta.lean is written from the class docstring (replace, total-month shift with clip, exact duration, "
     "nth weekday by search); the oracle compares the implementation with it through rd.spec",
     "CPython datetime: replace() validation, datetime + timedelta (wall-clock for aware operands, tzinfo kept, fold reset), "
@@ -49,7 +52,10 @@ ASSUMPTIONS = [
 RULE = ("seeded random (delta, operand): delta from keyword arguments (every combination of absolute fields, signed relative "
         "fields incl. multi-level carries, leapdays, yearday/nlyearday, weekday int / wd / wd(n) with n in -5..5), operand a "
         "date / naive / aware datetime biased to month ends, Feb 28/29, leap and century years, years 1 and 9999; "
-        "distinct = distinct canonical (delta fields, operand); non-trivial = the implementation returned a value")
+        "distinct = distinct canonical (delta fields, operand); non-trivial = the implementation returned a value; plus the "
+        "history of one object (use -> weeks setter / attribute assignment -> use: model on the CURRENT record after every step, fresh "
+        "clone and relativedelta(**fields) in the oracle), fractional-float deltas on the negation / subtraction / promotion path "
+        "against an expectation independent of the operators, and the yearday_366 regression stream")
 
 
 def impl_add(x, d):
